@@ -5,23 +5,6 @@ From Coq Require Import Permutation.
 Open Scope Z_scope.
 
 (* ---------------------------------------------------------------- boolean reflections *)
-Lemma nodupb_spec l : nodupb l = true <-> NoDup l.
-Proof.
-  induction l as [|x r IH]; cbn [nodupb]; [split; [constructor|reflexivity]|].
-  rewrite andb_true_iff, negb_true_iff, IH, mem_false. split.
-  - intros [H1 H2]. now constructor.
-  - intros H. inversion H; subst. tauto.
-Qed.
-
-Lemma list_eqb_spec a b : list_eqb a b = true <-> a = b.
-Proof.
-  revert b. induction a as [|x r IH]; intros [|y q]; cbn [list_eqb].
-  - split; reflexivity.
-  - split; discriminate.
-  - split; discriminate.
-  - rewrite andb_true_iff, N.eqb_eq, IH. split; [intros [-> ->]; reflexivity|intros [= -> ->]; tauto].
-Qed.
-
 Lemma nondecreasing_cons x l :
   nondecreasing (x :: l) = true <-> (forall y, In y l -> (x <= y)%nat) /\ nondecreasing l = true.
 Proof.
@@ -42,6 +25,15 @@ Proof.
   destruct j as [|j']; [lia|]. cbn in Hj. destruct i as [|i'].
   - cbn in Hi. injection Hi as <-. apply H1. eapply nth_error_In; eassumption.
   - cbn in Hi. apply (IH H2 i' j'); [lia|assumption|assumption].
+Qed.
+
+Lemma nondecreasing_of_pairs l :
+  (forall i j a b, (i < j)%nat -> nth_error l i = Some a -> nth_error l j = Some b -> (a <= b)%nat) ->
+  nondecreasing l = true.
+Proof.
+  induction l as [|x r IH]; intros H; [reflexivity|]. apply nondecreasing_cons. split.
+  - intros y Hy. apply In_nth_error in Hy. destruct Hy as (k & Hk). apply (H 0%nat (S k)); [lia|reflexivity|exact Hk].
+  - apply IH. intros i j a b Hij Hi Hj. apply (H (S i) (S j)); [lia|exact Hi|exact Hj].
 Qed.
 
 Lemma nondecreasing_app a b :
@@ -299,6 +291,35 @@ Section PlanProofs.
     - intros i j a b Hij Hi Hj.
       apply (nondecreasing_spec _ H4 i j); [assumption| |]; rewrite nth_error_map; [now rewrite Hi|now rewrite Hj].
     - intros Hl. rewrite Hl in H5. now apply list_eqb_spec.
+  Qed.
+
+  Theorem plan_matches_ring p : plan_matches p = true -> P_ring g p.
+  Proof.
+    unfold Plan.plan_matches. cbv zeta. rewrite !andb_true_iff. intros [[[[_ H2] _] _] _].
+    fold all_nodes in *. change (permitted_with all_nodes) with permitted in *.
+    rewrite forallb_forall in H2. intros n Hn. specialize (H2 n Hn). apply andb_true_iff in H2.
+    destruct H2 as [_ H2]. apply permitted_spec in H2. tauto.
+  Qed.
+
+  (* the acceptor refuses nothing that has the property *)
+  Theorem plan_matches_complete p :
+    P_nodup p -> P_filter enabled p -> P_locality dcf pol rq p -> P_ring g p -> P_complete dcf g enabled pol rq p ->
+    P_order dcf rackf g keyspaces enabled connected pol rq p ->
+    P_lwt dcf rackf g keyspaces enabled connected pol rq p -> plan_matches p = true.
+  Proof.
+    intros H1 H2 H3 H4 H5 H6 H7. unfold Plan.plan_matches. cbv zeta. fold all_nodes.
+    change (permitted_with all_nodes) with permitted. change (group_with all_nodes local_nodes rep_local rep_any) with group_of.
+    rewrite !andb_true_iff. repeat split.
+    - now apply nodupb_spec.
+    - apply forallb_forall. intros n Hn. rewrite (H2 n Hn). cbn [andb]. apply permitted_spec.
+      split; [now apply H4|]. intros d Hd Hf. now apply (H3 d Hd Hf).
+    - apply forallb_forall. intros n Hn. apply filter_In in Hn. destruct Hn as [Hin Hok].
+      apply andb_true_iff in Hok. destruct Hok as [He Hp]. apply permitted_spec in Hp. apply mem_In.
+      apply H5; tauto.
+    - apply nondecreasing_of_pairs. intros i j a b Hij Hi Hj. rewrite nth_error_map in Hi, Hj.
+      destruct (nth_error p i) as [x|] eqn:Ex; [|discriminate]. destruct (nth_error p j) as [y|] eqn:Ey; [|discriminate].
+      cbn in Hi, Hj. injection Hi as <-. injection Hj as <-. now apply (H6 i j).
+    - destruct (rq_lwt rq) eqn:El; [|reflexivity]. apply list_eqb_spec. now apply H7.
   Qed.
 
   Lemma min_group_with_le (grp : N -> nat) l m : In m l -> (min_group_with l grp <= grp m)%nat.
@@ -655,6 +676,20 @@ Section PlanProofs.
       constructor; [|auto]. apply Forall_forall. intros y Hy.
       destruct (target_cmp x y) eqn:E; [|reflexivity]. exfalso. apply Hx.
       apply cmp_same_node in E. rewrite E. now apply in_map.
+    Qed.
+
+    (* without a location preference the LWT sequence is literally the ring order: the alive
+       replicas in the order of their first position on the ring walk from the token *)
+    Theorem lwt_sequence_ring_order t s : eff_pref = PAny -> token_strategy = Some (t, s) ->
+      lwt_sequence = filter (fun n => alive n && mem n (reps_iter t s CAny)) (uniq (ring_range g t)).
+    Proof.
+      intros Hp Ets. pose proof (token_strategy_keys t s Ets) as Hok.
+      unfold Plan.lwt_sequence, Plan.crit_rack, Plan.crit_local, Plan.remote_allowed. rewrite Ets, Hp. cbn [pref_dc app].
+      unfold Plan.filtered_replicas, Plan.reps_ordered, Plan.reps_iter, rset_for. cbn [crit_dc].
+      rewrite (ordered_view dcf rackf g (pre keyspaces) t Hs s None Hok). cbn [fst].
+      rewrite filter_filter_and. unfold uniq at 1. rewrite (uniq_by_NoDup_id N.eqb Neqb_eq).
+      - apply filter_ext. intros n. cbn [Plan.crit_ok]. rewrite andb_true_r. apply andb_comm.
+      - apply NoDup_filter, uniq_NoDup.
     Qed.
 
     (* ============================================================= pick() *)
